@@ -1000,6 +1000,24 @@ class Exec:
             if pending is not None:
                 cur = ('val', self.load(st, pending[1]), ())
                 pending = None
+            if k == 'subslice' or (k == 'constindex' and e['from_end']):
+                # slice patterns (`[first, rest @ ..]`, `[.., last]`): read-only view of the elements
+                whole = self.read_loc(st, cur) if cur[0] != 'val' else self.get_path(cur[1], cur[2])
+                if whole[0] == 'agg' and whole[1][0] == 'adt' and len(whole[2]) == 1:
+                    whole = whole[2][0]
+                if whole[0] != 'agg':
+                    raise Uncertified("slice pattern over %s" % whole[0])
+                n_ = len(whole[2])
+                if k == 'constindex':
+                    if e['offset'] > n_ or e['offset'] < 1:
+                        raise Uncertified("slice pattern index from the end out of range")
+                    cur = ('val', whole[2][n_ - e['offset']], ())
+                else:
+                    hi_ = n_ - e['to'] if e['from_end'] else e['to']
+                    if not (0 <= e['from'] <= hi_ <= n_):
+                        raise Uncertified("slice pattern out of range")
+                    cur = ('val', mk('agg', whole[1], tuple(whole[2][e['from']:hi_])), ())
+                continue
             if k == 'deref':
                 ref = self.read_loc(st, cur)
                 ref = self.simplify_ref(ref)
